@@ -2,9 +2,11 @@
 """usage: mkmutant.py <name> <file> <old> <new> [<file> <old> <new> ...]
 Applies exact-text replacements in the scratch worktree /var/tmp/mut (reset to
 /repo HEAD first) and stores the diff as /verif/mutants/<name>.patch."""
-import subprocess, sys
+import os, subprocess, sys
 MUT = "/var/tmp/mut"
 name = sys.argv[1]
+if not os.path.isdir(MUT):          # scratch worktree of /repo, outside /repo and /verif; remove with `git -C /repo worktree remove --force /var/tmp/mut`
+    subprocess.check_call(["git", "-C", "/repo", "worktree", "add", "-q", "--detach", MUT, "HEAD"])
 subprocess.check_call(["git", "-C", MUT, "checkout", "-q", "--detach", subprocess.check_output(["git", "-C", "/repo", "rev-parse", "HEAD"], text=True).strip()])
 subprocess.check_call(["git", "-C", MUT, "checkout", "-q", "--", "."])
 args = sys.argv[2:]
